@@ -223,6 +223,18 @@ def replay_tcoll(groups):
                 if d is not None:
                     out.append(dict(site=site + "/pow0", stratum="nonpositive-power", case={**case, "pos": i}, expected=r0["xcanon"], observed=d))
                     break
+            # the transformations (n,) against the objects in a collection with one more axis (2, n): trailing axes pair up
+            if len(recs) != 70:
+                x2 = build_coll([r0["x"]] * (2 * len(recs)), dim)
+                arr2 = np.asarray(x2.array)
+                x2 = type(x2)(arr2.reshape((2, len(recs)) + arr2.shape[1:]), **({"is_dual": x2.is_dual} if hasattr(x2, "is_dual") else {}))
+                y2 = tc * x2
+                bad2 = None
+                for a_ in range(2):
+                    for i, r in enumerate(recs):
+                        bad2 = bad2 or compare_any(y2, r["c"], pos=(a_, i))
+                if bad2 is not None:
+                    out.append(dict(site=site + "/objects-with-one-more-axis", stratum="general", case=case, expected="tc[j] * x at every position (i, j)", observed=bad2))
             # a collection derived from one that has already been inverted (expand_dims copies the object)
             tc2 = tc.expand_dims(0)
             inv2 = tc2.inverse()
